@@ -95,8 +95,9 @@ class Tokens(object):
         if tok == ABSENT:
             return None
         if tok not in self.fwd[kind]:
-            if kind == "name" and tok.isdigit():
-                self.define(kind, tok, tok)
+            if (kind == "name" and tok.isdigit()) or kind == "mood":
+                # numeric nameplates and moods mean something to the server
+                self.define(kind, tok, "" if (kind, tok) == ("mood", "empty") else tok)
             else:
                 self.define(kind, tok, "%s:%s" % (kind, tok))
         return self.fwd[kind][tok]
